@@ -140,6 +140,9 @@ func stubBody(name string, transform bool) genql.Function {
 		idx, call := beginCall(name, id, arg, marker)
 		if ns := latencyFor(id, call); ns > 0 {
 			zzsim.Sleep(time.Duration(ns))
+			// user code looks at what it was handed when it gets round to it: its argument, the row it runs on
+			inspect(x, 0)
+			inspect(current, 2)
 		}
 		switch kind := faultFor(id, call, arg); kind {
 		case "error":
@@ -167,6 +170,30 @@ func stubBody(name string, transform bool) genql.Function {
 			return x, nil
 		}
 	}
+}
+
+// inspect reads every entry of the maps and slices of a value (a few levels deep), as user code walking its
+// argument would; the reads are what ThreadSanitizer gets to see.
+func inspect(x any, depth int) (n int) {
+	defer func() { recover() }()
+	if depth > 3 {
+		return 0
+	}
+	switch v := x.(type) {
+	case map[string]any:
+		for k, e := range v {
+			n += len(k) + inspect(e, depth+1)
+		}
+	case []any:
+		for _, e := range v {
+			n += inspect(e, depth+1)
+		}
+	case *any:
+		if v != nil {
+			n += inspect(*v, depth+1)
+		}
+	}
+	return n + 1
 }
 
 func argText(x any) (out string) {
